@@ -623,3 +623,6 @@ def run(report, repo):
   report.guard(r7_buffer, report, repo)
   from sa.rules import extra4  # pylint: disable=g-import-not-at-top
   report.guard(extra4.read_until_close_drains, report, repo, 'C14-R9')
+  from sa.rules import extra5 as _e5b  # pylint: disable=g-import-not-at-top
+  from sa.rules import c13 as _c13  # pylint: disable=g-import-not-at-top
+  report.guard(_c13.r2_r3_regions, report, repo, rule='C14-R10', rule3='C14-R10b')
